@@ -139,9 +139,23 @@ class C15(Prop):
                 ops.append(mk('chain %s b%s' % (t, hx), k='same', n=n, cnt=cnt, wire=hx))
             for t, hx in (('Header', 'a201' + e + '1863' + e), ('CoseKey', 'a30101' + '03' + e + '1863' + e), ('PartyInfo', '83f6' + e + 'f6'), ('CoseKdfContext', '84' + e + '83f6' + e + 'f683f6' + e + 'f682' + ('00' if n < 0 else e) + '40')):
                 ops.append(mk('chain %s b%s' % (t, hx), k='same-other', n=n, wire=hx))
+        # every pattern of equal / different values among the core claims at once: three texts from {a, b}, three integer timestamps from
+        # {x, y}, for a few (x, y) — 64 patterns each (informed round 11: iat overwritten with exp when iss = sub and exp = nbf)
+        for x, y in ((1700000000, 1600000000), (-1, 2**63 - 1), (0, 1), (2**32, -2**63)):
+            ex, ey = refcbor.encode(('int', x)).hex(), refcbor.encode(('int', y)).hex()
+            for bits in range(64):
+                tx = ['6161' if bits >> i & 1 else '6162' for i in range(3)]; ts = [ex if bits >> (3 + i) & 1 else ey for i in range(3)]
+                hx = 'a6' + '01' + tx[0] + '02' + tx[1] + '03' + tx[2] + '04' + ts[0] + '05' + ts[1] + '06' + ts[2]
+                ops.append(mk('chain ClaimsSet b' + hx, k='pattern', n=x, wire=hx, want=[(x if bits >> (3 + i) & 1 else y) for i in range(3)]))
         return ops
     def impl_pred(self, o, impl):
         m = o['meta']; n = m['n']; pos = m['k']
+        if pos == 'pattern':
+            if not impl.startswith('ok '): return 'a well-formed claims set was refused'
+            got = re.findall(r' W(-?\d+)', impl.split(' ok ')[0])
+            if [int(g_) for g_ in got] != m['want']: return 'timestamps decoded as %s, the wire says %s' % (got, m['want'])
+            if not impl.endswith(' ok b' + m['wire']): return 'a claims set in deterministic form does not encode back to its input'
+            return None
         if pos == 'same':
             if not impl.startswith('ok '): return 'a claims set whose timestamps are all the in-range integer %d was refused' % n
             if impl.split(' ok ')[0].count('W%d ' % n) + impl.split(' ok ')[0].count('W%d)' % n) != m['cnt']: return 'not every timestamp of a claims set holding the same integer at each came out exactly'
@@ -224,7 +238,7 @@ class C16(Prop):
             parts = impl.split(' ')
             if len(parts) != 3 or parts[0] != lex(ea, eb): return 'cmp differs from bytewise order of the deterministic encodings (texts of %d and %d bytes): %s' % (m['x'][0], m['y'][0], impl[:30])
             return None
-        if impl in ('panic', 'bad-partial'): return 'comparison panicked or partial_cmp disagrees with cmp'
+        if impl in ('panic', 'bad-partial'): return 'comparison panicked, or partial_cmp / one of the operators <, <=, >, >=, != disagrees with cmp and =='
         def enc(x):
             if x[0] in 'AP': return refcbor.encode(('int', int(x[1:])))
             if x[0] == 'X': return refcbor.encode(('text', bytes.fromhex(x[1:])))
@@ -282,6 +296,13 @@ class C17(Prop):
         for i in list(range(-65540, -65530)) + [-7, 8, 0]:
             e = refcbor.encode(('int', i)).hex()
             ops += [mk('dec Header ba101' + e, k='field'), mk('dec CoseKey ba2010103' + e, k='field'), mk('dec ClaimsSet ba1' + e + 'f6', k='field'), mk('dec Header ba10281' + e, k='field'), mk('dec CoseKey ba101' + e, k='field')]
+            # … at every position typed by a registry, also inside nested structures (informed round 11: the algorithm of a KDF context
+            # decoded through the label type without a private range)
+            pm = 'a101' + e; pb_ = refcbor.head(2, len(pm) // 2).hex() + pm
+            ops += [mk('chain CoseKdfContext b84' + e + '83f6f6f683f6f6f6820040', k='field'), mk('chain CoseKdfContext b840183f6f6f683f6f6f68200' + pb_, k='field'), mk('chain SuppPubInfo b8200' + pb_, k='field'),
+                    mk('dec Header ba103' + e, k='field'), mk('dec CoseKey ba201040481' + e, k='field'), mk('chain CoseSign1 b84' + pb_ + 'a0f640', k='field'), mk('chain CoseSign b8440a0f68183' + pb_ + 'a040', k='field'),
+                    mk('chain CoseEncrypt b8440a0f6818340' + pm + 'f6', k='field'), mk('chain CoseMac b8540a0f64081' + '83' + pb_ + 'a0f6', k='field'), mk('chain Header ba1078340' + pm + '40', k='field'), mk('chain CoseKeySet b81a2010103' + e, k='field'),
+                    mk('chain CoseRecipient b8440a0f6818340' + pm + 'f6', k='field'), mk('chain ClaimsSet ba2' + e + 'f6' + '0161' + '61', k='field')]
         # a list-typed field is accepted only if *every* element is: one invalid element at any index refuses the whole
         # (informed round 9: `flatten()` over the converted elements dropped the failing ones after the first)
         bad = [refcbor.encode(('int', 8)).hex(), refcbor.encode(('int', -70000)).hex(), '4101', 'f6', refcbor.encode(('int', 2**63)).hex()]
@@ -321,6 +342,7 @@ class C18(Prop):
         keys = list(range(0, 10)) + [38, 39, 40, 41, -260, -259, -258, -257, -256, -65536, -65537, -70000, 10, 2**63, -2**63]
         tsv = [I(0), I(1700000000), I(-1), I(2**63 - 1), I(-2**63), I(2**63), I(-2**63 - 1), F(0x3ff8000000000000), F(0x3e00 << 48), F(0), F(0x8000000000000000), F(0x7ff0000000000000), F(0xfff0000000000000), F(0x7ff8000000000000), F(0x41d954fc40000000), Tx(b'1'), ('null',), B(b''),
                # a timestamp is an integer or a float, never a tagged item (seeded C18-r5: tag 1 accepted)
+               F(0x7ff8000000000001), F(0xfff8000000000000), F(0x7ff4000000000000), F(0x7ff0000000000001), F(0xffffffffffffffff), F(0x0000000000000001), F(0x800fffffffffffff), F(0x7fefffffffffffff),
                ('tag', 1, I(1700000000)), ('tag', 1, F(0x3ff8000000000000)), ('tag', 0, Tx(b'2013-03-21T20:04:00Z')), ('tag', 1, ('tag', 1, I(0))), ('tag', 2, B(b'\x01')), ('tag', 55799, I(5))]
         def claimval(k):
             if k in (1, 2, 3): return r.choice([Tx(b'iss'), Tx(b''), B(b'x'), I(1), ('null',)])
@@ -341,6 +363,11 @@ class C18(Prop):
             v = ('map', m); b = refcbor.encode(v) if r.random() < 0.5 else g.venc(v)
             ops.append(mk('chain ClaimsSet b' + b.hex(), k='claims'))
         for v in tsv: ops.append(mk('fromv Timestamp ' + vsx(v), k='timestamp'))
+        # floats as the wire carries them, every width, NaNs with payload / sign, signed zeros, subnormals: kept bit for bit through decode and
+        # re-encode (informed round 11: every NaN timestamp replaced by the default quiet NaN)
+        for fb in ('f97e00', 'f97e01', 'f9fe00', 'f97c01', 'f98000', 'f90001', 'fa7fc00001', 'faffc00000', 'fa7f800001', 'fa80000000', 'fb7ff8000000000001', 'fbfff8000000000000', 'fb7ff4000000000000', 'fb8000000000000000', 'fb0000000000000001'):
+            for kx in ('04', '05', '06'):
+                ops.append(mk('chain ClaimsSet ba1' + kx + fb, k='ts-float')); ops.append(mk('chain ClaimsSet ba301616104' + fb + kx.replace('04', '05') + fb if kx != '04' else 'chain ClaimsSet ba204' + fb + '05' + fb, k='ts-float'))
         slot = [('null',), B(b''), B(b'ab'), I(5), I(-1), I(2**63), Tx(b'x'), ('array', []), ('map', []), ('bool', True)]
         # a byte string holding the *encoding* of a valid sub-structure is not that sub-structure (informed rounds 8/9)
         WRAPPED = [B(bytes.fromhex('820040')), B(bytes.fromhex('82188043a10126')), B(bytes.fromhex('83f6f6f6')), B(bytes.fromhex('83414101f6')), B(bytes.fromhex('a10101'))]
@@ -478,6 +505,9 @@ class C20(Prop):
         # arrays / tags / other maps (seeded C20-r4: canonicalize must not touch them)
         NESTED = ['(map t62 i2 i256 i1 i-1 i0)', '(map i2 N i1 N)', '(arr (map t6262 i1 t61 i2) i7)', '(tag 99 (map i10 i1 i9 i2))',
                   '(map i1 (map t7a i1 t61 i2) i0 (arr))', '(map i-1 i0 i-25 i1 i24 i2)', '(arr (arr (map b02 i1 b01 i2)))', '(map i1 i1 i1 i2)']
+        # … and byte strings / texts whose content is the encoding of a key, a header, a key set in wire order: values like any other
+        # (informed round 11: a byte string that decodes as a COSE_Key canonicalised recursively)
+        NESTED += ['ba203260101', 'ba2200103' + '26' if False else 'ba20326200101'[:0] + 'ba3200121022203', 'b81a203260101', 'ba201040482' + '0201', 'b43a10126', 'ba1010' + '1', '(arr ba203260101)', '(tag 24 ba203260101)', 't' + b'{3: -7, 1: 1}'.hex()]
         VALS = ['N', 'i1', 'b00', '(arr)', 't61'] * 2 + NESTED
         def keyform(params):
             kty = r.choice(['A1', 'A2', 'A4', 'X6b']); kid = r.choice(['b', 'b01']); alg = r.choice(['-', 'A-7', 'P-70000', 'X61'])
